@@ -241,6 +241,10 @@ def run(S):
         'identifier texts range over 1-character strings from a..e: enough for every order / equality pattern among <= K items',
         'HashSet<&str>::insert returns false iff an equal string was inserted before; sort_by_key is a stable sort by the key (contracts)',
     ]
+    # the library skeleton: every entry point builds its formatter through Typstyle::new, which must keep the configuration (the reorder flag among it),
+    # and returns exactly strip(render(..)) - nothing is done to the text (and so to the literals in it) after the post-processing
+    from . import libskel as _ls
+    _ls.run(S, want_witness=False)
     return S.finish(level='other', explanation=EXPLANATION, trusted=['mirsym encoder', 'typst-syntax accessor contracts (ImportItemPath::name, RenamedImportItem::new_name)'])
 
 
